@@ -382,8 +382,10 @@ struct Dumper
     /** prefix = false: all; otherwise only the first keep_syms frame symbols, keep_vars variables, keep_funs functions */
     void decls(declarations_t& d, bool global, int keep_or_all)
     {
-        const bool prefix = keep_or_all >= 0;
-        const int keep = prefix ? o.keep_syms : -1;
+        const bool gprefix = keep_or_all < 0 && global && o.mask_decl_templ >= 0 && o.gkeep_syms >= 0;
+        const bool prefix = keep_or_all >= 0 || gprefix;
+        const int keep = gprefix ? o.gkeep_syms : (prefix ? o.keep_syms : -1);
+        const int keep_vars = gprefix ? o.gkeep_vars : o.keep_vars, keep_funs = gprefix ? o.gkeep_funs : o.keep_funs;
         os << "\n  frame{";
         if (d.frame == frame_t{})
             os << "null";
@@ -412,7 +414,7 @@ struct Dumper
         for (auto& v : d.variables) {
             if (global && builtin_sym(v.uid))
                 continue;
-            if (prefix && nv >= o.keep_vars)
+            if (prefix && nv >= keep_vars)
                 break;
             ++nv;
             os << "\n  var " << (v.uid == symbol_t{} ? std::string{"sym0"} : v.uid.get_name()) << " init=";
@@ -420,7 +422,7 @@ struct Dumper
         }
         int nf = 0;
         for (auto& f : d.functions) {
-            if (prefix && nf >= o.keep_funs)
+            if (prefix && nf >= keep_funs)
                 break;
             ++nf;
             os << "\n  fun ";
@@ -1029,6 +1031,10 @@ struct C08
                 fail(std::string{what} + " '" + nm + "' has type arity " + std::to_string(t.size()) + " but " +
                      std::to_string(i.unbound) + " unbound parameters");
         }
+        // a process that still has free parameters is a set of processes, one per valuation of exactly those parameters
+        if (!(i.uid == symbol_t{}) && i.uid.get_type().get_kind() == PROCESS_SET && i.uid.get_type().size() != i.unbound)
+            fail(std::string{what} + " '" + nm + "' is a process set of arity " + std::to_string(i.uid.get_type().size()) + " but has " +
+                 std::to_string(i.unbound) + " unbound parameters");
         // mapping keys == parameters[unbound..]
         size_t bound = n - i.unbound;
         if (i.mapping.size() != bound) {
